@@ -146,9 +146,10 @@ impl Chain {
 	/// Relay: validate and, when acceptable, add to the mempool. Returns the verdict.
 	pub fn relay(&mut self, tx: &Transaction) -> TxVerdict {
 		let txid = tx.compute_txid();
-		if self.seen.contains(&txid) {
-			return if self.confirmed_at.contains_key(&txid) || self.mempool.iter().any(|t| t.compute_txid() == txid) { TxVerdict::Valid } else { self.validate(tx) };
+		if self.seen.contains(&txid) && (self.confirmed_at.contains_key(&txid) || self.mempool.iter().any(|t| t.compute_txid() == txid)) {
+			return TxVerdict::Valid;
 		}
+		// (a transaction seen before but evicted from the mempool by a conflicting relay is a new relay)
 		let v = self.validate(tx);
 		self.stats_validated += 1;
 		match v {
